@@ -1,0 +1,16 @@
+//go:build verif
+
+package server
+
+import "sync"
+
+// SimBeforeLock is verification-only seam (build tag `verif`). When set by a simulator it is called just before
+// every mutex acquisition of Server so that lock hand-off order becomes a scheduling decision
+// of the simulator. It is nil (and does nothing) unless a simulator installs it.
+var SimBeforeLock func(l *sync.RWMutex, write bool)
+
+func simBeforeLock(l *sync.RWMutex, write bool) {
+	if f := SimBeforeLock; f != nil {
+		f(l, write)
+	}
+}
